@@ -34,6 +34,11 @@ def impl(py):
     s = TimeScale()
     s.domain([a, b])
     s.range(list(py["rng"]))
+    # another scale object is configured and used in between: scale objects share nothing
+    import datetime as _dt
+    _o = TimeScale().domain([_dt.datetime(2001, 2, 3, 4, 5), _dt.datetime(2031, 7, 9)]).range([7, 1234])
+    _o.ticks(7)
+    _o.nice()
     ls = LinearScale().domain([dt2milli(a), dt2milli(b)]).range(list(py["rng"]))
     out = {"scale": [s(of_us(q)) for q in py["qs"]],
            "linear": [ls(dt2milli(of_us(q))) for q in py["qs"]],
